@@ -37,6 +37,8 @@ impl SyncHandle {
 
         if flush_interval != ZERO_DURATION {
             super::state::start_sync_flusher(Arc::clone(&am_state), flush_interval);
+            #[cfg(flexi_logger_verif)]
+            crate::verif_hooks::sync_op(crate::verif_hooks::Op::Spawned("flw_flusher"));
         }
 
         Self {
@@ -84,9 +86,15 @@ impl AsyncHandle {
             message_capa,
             Arc::clone(&a_pool),
         );
+        #[cfg(flexi_logger_verif)]
+        crate::verif_hooks::sync_op(crate::verif_hooks::Op::Spawned("flw_async_writer"));
 
         if flush_interval != ZERO_DURATION {
+            #[cfg(flexi_logger_verif)]
+            crate::verif_hooks::set_spawn_ctx(crate::verif_hooks::id_of(&am_state));
             super::state::start_async_fs_flusher(sender.clone(), flush_interval);
+            #[cfg(flexi_logger_verif)]
+            crate::verif_hooks::sync_op(crate::verif_hooks::Op::Spawned("flw_async_flusher"));
         }
 
         Self {
@@ -101,6 +109,8 @@ impl AsyncHandle {
     }
 
     fn write(&self, now: &mut DeferredNow, record: &Record) -> Result<(), std::io::Error> {
+        #[cfg(flexi_logger_verif)]
+        crate::verif_hooks::sync_op(crate::verif_hooks::Op::Point("flw_pool_pop"));
         let mut buffer = self.pop_buffer();
         (self.format_function)(&mut buffer, now, record).inspect_err(|e| {
             eprint_err(ErrorCode::Format, "formatting failed", &e);
@@ -108,6 +118,11 @@ impl AsyncHandle {
         buffer.write_all(self.line_ending).inspect_err(|e| {
             eprint_err(ErrorCode::Write, "writing failed", &e);
         })?;
+        #[cfg(flexi_logger_verif)]
+        crate::verif_hooks::sync_op(crate::verif_hooks::Op::Send(
+            "flw_chan",
+            crate::verif_hooks::id_of(&self.am_state),
+        ));
         self.sender.send(buffer).map_err(|_e| io_err("Send"))
     }
 
@@ -166,12 +181,16 @@ impl StateHandle {
     pub(super) fn plain_write(&self, buffer: &[u8]) -> std::result::Result<usize, std::io::Error> {
         match self {
             StateHandle::Sync(handle) => {
+                #[cfg(flexi_logger_verif)]
+                let _vh = crate::verif_hooks::LockScope::new("flw_state", self.vh_id());
                 let mut state_guard = handle.am_state.lock().map_err(|_e| io_err("Poison"))?;
                 let state = &mut *state_guard;
                 state.write_buffer(buffer).map(|()| buffer.len())
             }
             #[cfg(feature = "async")]
             StateHandle::Async(handle) => {
+                #[cfg(flexi_logger_verif)]
+                crate::verif_hooks::sync_op(crate::verif_hooks::Op::Send("flw_chan", self.vh_id()));
                 handle
                     .sender
                     .send(buffer.to_owned())
@@ -194,6 +213,8 @@ impl StateHandle {
                         buffer
                             .write_all(handle.line_ending)
                             .unwrap_or_else(|e| eprint_err(ErrorCode::Write, "writing failed", &e));
+                        #[cfg(flexi_logger_verif)]
+                        let _vh = crate::verif_hooks::LockScope::new("flw_state", self.vh_id());
                         handle
                             .am_state
                             .lock()
@@ -211,6 +232,8 @@ impl StateHandle {
                         (handle.format_function)(&mut tmp_buf, now, record).unwrap_or_else(|e| {
                             eprint_err(ErrorCode::Format, "formatting failed", &e);
                         });
+                        #[cfg(flexi_logger_verif)]
+                        let _vh = crate::verif_hooks::LockScope::new("flw_state", self.vh_id());
                         let mut state_guard = handle
                             .am_state
                             .lock()
@@ -235,14 +258,20 @@ impl StateHandle {
     pub(super) fn flush(&self) -> std::io::Result<()> {
         match &self {
             StateHandle::Sync(handle) => {
+                #[cfg(flexi_logger_verif)]
+                let _vh = crate::verif_hooks::LockScope::new("flw_state", self.vh_id());
                 if let Ok(ref mut state) = handle.am_state.lock() {
                     state.flush()?;
                 }
             }
             #[cfg(feature = "async")]
             StateHandle::Async(handle) => {
+                #[cfg(flexi_logger_verif)]
+                crate::verif_hooks::sync_op(crate::verif_hooks::Op::Point("flw_pool_pop"));
                 let mut buffer = handle.pop_buffer();
                 buffer.extend(ASYNC_FLUSH);
+                #[cfg(flexi_logger_verif)]
+                crate::verif_hooks::sync_op(crate::verif_hooks::Op::Send("flw_chan", self.vh_id()));
                 handle.sender.send(buffer).ok();
             }
         }
@@ -251,6 +280,8 @@ impl StateHandle {
 
     // Replaces parts of the configuration of the file log writer.
     pub(super) fn reset(&self, flwb: &FileLogWriterBuilder) -> Result<(), FlexiLoggerError> {
+        #[cfg(flexi_logger_verif)]
+        let _vh = crate::verif_hooks::LockScope::new("flw_state", self.vh_id());
         let mut state = match self {
             StateHandle::Sync(handle) => handle.am_state.lock(),
             #[cfg(feature = "async")]
@@ -263,6 +294,8 @@ impl StateHandle {
     }
 
     pub(super) fn reopen_outputfile(&self) -> Result<(), FlexiLoggerError> {
+        #[cfg(flexi_logger_verif)]
+        let _vh = crate::verif_hooks::LockScope::new("flw_state", self.vh_id());
         let mut state = match self {
             StateHandle::Sync(handle) => handle.am_state.lock(),
             #[cfg(feature = "async")]
@@ -273,6 +306,8 @@ impl StateHandle {
     }
 
     pub(super) fn rotate(&self) -> Result<(), FlexiLoggerError> {
+        #[cfg(flexi_logger_verif)]
+        let _vh = crate::verif_hooks::LockScope::new("flw_state", self.vh_id());
         let mut state = match self {
             StateHandle::Sync(handle) => handle.am_state.lock(),
             #[cfg(feature = "async")]
@@ -283,6 +318,8 @@ impl StateHandle {
     }
 
     pub(crate) fn config(&self) -> Result<FileLogWriterConfig, FlexiLoggerError> {
+        #[cfg(flexi_logger_verif)]
+        let _vh = crate::verif_hooks::LockScope::new("flw_state", self.vh_id());
         let state = match self {
             StateHandle::Sync(handle) => handle.am_state.lock(),
             #[cfg(feature = "async")]
@@ -297,6 +334,8 @@ impl StateHandle {
         &self,
         selector: &LogfileSelector,
     ) -> Result<Vec<PathBuf>, FlexiLoggerError> {
+        #[cfg(flexi_logger_verif)]
+        let _vh = crate::verif_hooks::LockScope::new("flw_state", self.vh_id());
         let state = match self {
             StateHandle::Sync(handle) => handle.am_state.lock(),
             #[cfg(feature = "async")]
@@ -320,6 +359,8 @@ impl StateHandle {
     pub(super) fn shutdown(&self) {
         match &self {
             StateHandle::Sync(handle) => {
+                #[cfg(flexi_logger_verif)]
+                let _vh = crate::verif_hooks::LockScope::new("flw_state", self.vh_id());
                 // do nothing in case of poison errors
                 if let Ok(ref mut state) = handle.am_state.lock() {
                     state.shutdown();
@@ -327,13 +368,34 @@ impl StateHandle {
             }
             #[cfg(feature = "async")]
             StateHandle::Async(handle) => {
+                #[cfg(flexi_logger_verif)]
+                crate::verif_hooks::sync_op(crate::verif_hooks::Op::Point("flw_pool_pop"));
                 let mut buffer = handle.pop_buffer();
                 buffer.extend(ASYNC_SHUTDOWN);
+                #[cfg(flexi_logger_verif)]
+                crate::verif_hooks::sync_op(crate::verif_hooks::Op::Send("flw_chan", self.vh_id()));
                 handle.sender.send(buffer).ok();
+                #[cfg(flexi_logger_verif)]
+                let _vh = crate::verif_hooks::LockScope::new("flw_join", self.vh_id());
                 if let Ok(ref mut o_th) = handle.mo_thread_handle.lock() {
+                    #[cfg(flexi_logger_verif)]
+                    if let Some(th) = o_th.as_ref() {
+                        crate::verif_hooks::sync_op(crate::verif_hooks::Op::Join(th.thread().id()));
+                    }
                     o_th.take().and_then(|th| th.join().ok());
                 }
             }
+        }
+    }
+}
+
+#[cfg(flexi_logger_verif)]
+impl StateHandle {
+    fn vh_id(&self) -> usize {
+        match self {
+            StateHandle::Sync(handle) => crate::verif_hooks::id_of(&handle.am_state),
+            #[cfg(feature = "async")]
+            StateHandle::Async(handle) => crate::verif_hooks::id_of(&handle.am_state),
         }
     }
 }
